@@ -197,6 +197,11 @@ func (f *farm) RoundTrip(r *http.Request) (*http.Response, error) {
 	}
 	var b bytes.Buffer
 	for i := 0; i < sp.Samples; i++ {
+		if sp.Hash%2 == 0 && i%3 == 2 && c20RuleStyle == 0 {
+			// a recording-rule style name (federation endpoints expose them); no rule of style 0 touches it
+			fmt.Fprintf(&b, "job:keep_metric:rate5m{i=\"%d\"} 1\n", i)
+			continue
+		}
 		fmt.Fprintf(&b, "keep_metric{i=\"%d\"} 1\n", i)
 	}
 	for i := 0; i < sp.Dropped; i++ {
